@@ -256,7 +256,7 @@ impl Prop for C18 {
         tier.pick(16, 160)
     }
     fn mandatory(&self, _t: Tier) -> Vec<String> {
-        let mut v: Vec<String> = ["strategy:Literal", "strategy:Greedy", "strategy:Random", "strategy:Raw", "strategy:Mixed", "chunks:0", "chunks:1", "chunks:>1", "overlapping_copy", "max_length_copy", "raw_chunk", "chunk_end_on_full_flag_group", "container:xlsm", "container:xlsb", "container:xls", "cp:1252", "cp:1251", "cp:932", "cp:65001"]
+        let mut v: Vec<String> = ["strategy:Literal", "strategy:Greedy", "strategy:Random", "strategy:Raw", "strategy:Mixed", "chunks:0", "chunks:1", "chunks:>1", "overlapping_copy", "max_length_copy", "raw_chunk", "chunk_end_on_full_flag_group", "container:xlsm", "container:xlsb", "container:xls", "stream_names:rotated", "cp:1252", "cp:1251", "cp:932", "cp:65001"]
             .iter().map(|s| s.to_string()).collect();
         for b in 4..=12 {
             v.push(format!("copy_token_offset_bits:{}", b));
@@ -281,7 +281,14 @@ impl Prop for C18 {
                 out.sample(ctxj.clone());
             }
             let which = i % 3;
+            // every third project stores its modules in streams named differently from the modules
+            let differ = i % 3 == 2;
+            ovba::STREAM_NAMES_DIFFER.with(|c| c.set(differ));
+            if differ {
+                out.feat(if p.modules.len() > 1 { "stream_names:rotated" } else { "stream_names:renamed" });
+            }
             let entries = ovba::project_entries(&p, strat, if which == 2 { Some("_VBA_PROJECT_CUR") } else { None }, &mut rng, &mut st);
+            ovba::STREAM_NAMES_DIFFER.with(|c| c.set(false));
             if st.unencodable {
                 out.sum("unencodable_sources_skipped", 1);
                 continue;
